@@ -108,6 +108,8 @@ func runPubScenario(sc J) []stepResult {
 	case "federating":
 		fedActor = pub.NewFederatingActor(common, fed, db, clock)
 		actor = fedActor
+	case "none":
+		actor = pub.NewCustomActor(fakeDelegate{world}, false, false, clock)
 	default:
 		kind = "both"
 		fedActor = pub.NewActor(common, social, fed, db, clock)
